@@ -206,6 +206,7 @@ macro_rules! chal_proof {
 }
 chal_proof!(chal_proof_kb4, kb4, crate::uni::Kb4);
 chal_proof!(chal_proof_bb4, bb4, crate::uni::Bb4);
+chal_proof!(chal_proof_kb4zk, kb4, crate::uni::Kb4zk);
 
 pub trait ChalProof: CircuitUni {
     fn chal_proof(h: &History, seed: u64) -> Result<(Self::Proof, ProverCfg), String>;
@@ -214,6 +215,14 @@ pub trait ChalProof: CircuitUni {
 impl ChalProof for crate::uni::Kb4 {
     fn chal_proof(h: &History, seed: u64) -> Result<(Self::Proof, ProverCfg), String> {
         chal_proof_kb4(h, seed)
+    }
+    fn chal_params() -> (u64, usize, usize) {
+        crate::props::c05::cfg_params("kb4")
+    }
+}
+impl ChalProof for crate::uni::Kb4zk {
+    fn chal_proof(h: &History, seed: u64) -> Result<(Self::Proof, ProverCfg), String> {
+        chal_proof_kb4zk(h, seed)
     }
     fn chal_params() -> (u64, usize, usize) {
         crate::props::c05::cfg_params("kb4")
@@ -433,15 +442,7 @@ pub fn main(ctx: &Ctx) -> i32 {
         c2.tier = if body["tier"].as_str() == Some("thorough") { Tier::Thorough } else { Tier::Quick };
         let mut out = RunOut::default();
         let only = if fs.is_empty() { None } else { Some((label.as_str(), fs)) };
-        match d["universe"].as_str().unwrap_or("") {
-            "U-BB4" => one_run::<crate::uni::Bb4>(&c2, idx, only, &mut out),
-            "U-BB5" => one_run::<crate::uni::Bb5>(&c2, idx, only, &mut out),
-            "U-KB5Q" => one_run::<crate::uni::Kb5q>(&c2, idx, only, &mut out),
-            "U-KB8" => one_run::<crate::uni::Kb8>(&c2, idx, only, &mut out),
-            "U-KB1" => one_run::<crate::uni::Kb1>(&c2, idx, only, &mut out),
-            "U-GL2" => one_run::<crate::uni::Gl2>(&c2, idx, only, &mut out),
-            _ => one_run::<crate::uni::Kb4>(&c2, idx, only, &mut out),
-        }
+        crate::with_uni!(d["universe"].as_str().unwrap_or(""), U, one_run::<U>(&c2, idx, only, &mut out));
         let key = body["key"].as_str().unwrap_or("");
         if out.violations.iter().any(|v| v.key == key) {
             println!("VIOLATION property={} replay={}", ctx.prop, path.display());
@@ -453,15 +454,7 @@ pub fn main(ctx: &Ctx) -> i32 {
     let runs: u64 = ctx.tier.pick(48, 480);
     let res = crate::core::pool::run_jobs(runs, |idx| {
         let mut out = RunOut::default();
-        match idx % 12 {
-            0 | 2 | 4 | 10 => one_run::<crate::uni::Kb4>(ctx, idx, None, &mut out),
-            1 | 3 | 11 => one_run::<crate::uni::Bb4>(ctx, idx, None, &mut out),
-            5 => one_run::<crate::uni::Bb5>(ctx, idx, None, &mut out),
-            6 => one_run::<crate::uni::Kb5q>(ctx, idx, None, &mut out),
-            7 => one_run::<crate::uni::Kb8>(ctx, idx, None, &mut out),
-            8 => one_run::<crate::uni::Kb1>(ctx, idx, None, &mut out),
-            _ => one_run::<crate::uni::Gl2>(ctx, idx, None, &mut out),
-        }
+        crate::with_uni!(crate::uni::uni_of(idx), U, one_run::<U>(ctx, idx, None, &mut out));
         let mut d = crate::core::prng::Digest::new();
         d.u64(out.evals);
         for (k, v) in &out.counters {
